@@ -90,3 +90,51 @@ Lemma ex_export_line :
   table_formatter erased_ops ex_k1 ex_v_3_3 = Some [[x41]; [x61]; [x33]] /\
   option_map fst (table_parser erased_ops [[x41]; [x61]; [x33]]) = Some ex_k1.
 Proof. repeat split; try discriminate; vm_compute; congruence. Qed.
+
+(** * Synchronize between three installations *)
+
+Definition ex_u2 : bytes := [x75; x32].
+Definition ex_v_m3_3 : bytes := [x63; x3d; x2d; x33; x20; x64; x3d; x30; x20; x74; x3d; x33].   (* "c=-3 d=0 t=3" *)
+
+(** u0: a -> 3;  u1: a -> -5, b -> 1;  u2: c -> -1;  no snapshot published yet *)
+Definition ex_world : world := {|
+  w_dbs := [ {| meta := ex_meta ex_10 ex_u0; data := [(ex_k1, ex_v_3_3)] |};
+             {| meta := ex_meta ex_20 ex_u1; data := [(ex_k1, ex_v_m5_4); (ex_k2, ex_v_1_1)] |};
+             {| meta := ex_meta ex_10 ex_u2; data := [(ex_k3, ex_v_m1_2)] |} ];
+  w_snaps := [None; None; None]; w_files := [] |}.
+
+Definition ex_all : list nat := [0; 1; 2]%nat.     (* the sync directory lists every installation *)
+
+(** (key, |commits|) of every entry *)
+Definition mags (O : dee_ops) (d : db) : list (bytes * Z) :=
+  map (fun e => (fst (fst e), Z.abs (snd (fst e)))) (dump O d).
+
+Definition ex_run (ops : list op) (w : world) : world := run erased_ops true 0 ex_ver ops w.
+
+(** every installation synchronises twice, but back to back: u0 never sees what u1 and u2 have *)
+Lemma ex_sync_twice_any_order :
+  let w := ex_run [OSync 0 ex_all; OSync 0 ex_all; OSync 1 ex_all; OSync 1 ex_all; OSync 2 ex_all; OSync 2 ex_all] ex_world in
+  mags erased_ops (get_db w 0) = [(ex_k1, 3%Z)] /\
+  mags erased_ops (get_db w 2) = [(ex_k1, 5%Z); (ex_k2, 1%Z); (ex_k3, 1%Z)].
+Proof. vm_compute. split; reflexivity. Qed.
+
+(** two rounds (each installation once per round, the rounds in different orders): all agree *)
+Lemma ex_sync_two_rounds :
+  let w := ex_run [OSync 0 ex_all; OSync 1 ex_all; OSync 2 ex_all; OSync 2 ex_all; OSync 0 ex_all; OSync 1 ex_all] ex_world in
+  mags erased_ops (get_db w 0) = [(ex_k1, 5%Z); (ex_k2, 1%Z); (ex_k3, 1%Z)] /\
+  mags erased_ops (get_db w 1) = mags erased_ops (get_db w 0) /\ mags erased_ops (get_db w 2) = mags erased_ops (get_db w 0).
+Proof. vm_compute. repeat split; reflexivity. Qed.
+
+(** a tie of magnitudes with opposite signs never converges in sign: each side keeps its own *)
+Definition ex_world_tie : world := {|
+  w_dbs := [ {| meta := ex_meta ex_10 ex_u0; data := [(ex_k1, ex_v_3_3)] |};
+             {| meta := ex_meta ex_20 ex_u1; data := [(ex_k1, ex_v_m3_3)] |} ];
+  w_snaps := [None; None]; w_files := [] |}.
+
+Lemma ex_sync_sign_tie :
+  let w := ex_run [OSync 0 [0; 1]%nat; OSync 1 [0; 1]%nat; OSync 0 [0; 1]%nat; OSync 1 [0; 1]%nat; OSync 0 [0; 1]%nat; OSync 1 [0; 1]%nat]
+                  ex_world_tie in
+  map (fun e => snd (fst e)) (dump erased_ops (get_db w 0)) = [3%Z] /\
+  map (fun e => snd (fst e)) (dump erased_ops (get_db w 1)) = [(-3)%Z] /\
+  mags erased_ops (get_db w 0) = mags erased_ops (get_db w 1).
+Proof. vm_compute. repeat split; reflexivity. Qed.
